@@ -7,7 +7,9 @@
 (* every rule r has the same fields (only those of its type are meaningful):  *)
 (*   db, table, parent, type, locations, slices, limit, ranges (<<[lo,hi]>>), *)
 (*   databases (<<[prefix, lo, hi]>>: a name, or the list prefix[lo-hi] when  *)
-(*   lo # None), pcount, plength, hs, seed, vbt                               *)
+(*   lo # None), pcount, plength, hs, seed, vbt, spell (how the textual lists *)
+(*   partition_count/length, date_range, databases, hash_slice, seed are      *)
+(*   written: "plain", or with blanks / a tab around the separators)          *)
 (*                                                                            *)
 (* The implementation supplies, for a configuration, an OBSERVATION record:   *)
 (*   verify \in {"ok","err","panic"}   models.Namespace.Verify                *)
@@ -79,6 +81,7 @@ RuleFeatures(r, nsslices) ==
          \cup (IF (\A i \in 1..Len(r.pcount) : r.pcount[i] >= 0) /\ Sum(SegLens(r.pcount, r.plength)) # 1024
                   THEN {"partition-sum-not-1024"} ELSE {}))
          ELSE {})
+   \cup (IF r.spell # "plain" THEN {"list-spelling-" \o r.spell} ELSE {})
    \cup (IF r.type = "mycat_murmur" /\ r.vbt = 0 THEN {"zero-virtual-buckets"} ELSE {})
    \cup (IF r.type = "mycat_murmur" /\ r.vbt < 0 THEN {"negative-virtual-buckets"} ELSE {})
    \cup (IF isDate THEN
